@@ -60,6 +60,12 @@ def calc_consts():
     m = must(r"struct SoftEqualTraits<double>\s*\{.*?sqrt_prec\(\)\s*\{\s*return\s+([0-9.eE+-]+)\s*;",
              soft, "SoftEqualTraits<double>::sqrt_prec", re.S)
     out["sqrtTol"] = sci(m.group(1), "sqrt_prec")
+    m = must(r"struct SoftEqualTraits<double>\s*\{.*?rel_prec\(\)\s*\{\s*return\s+([0-9.eE+-]+)\s*;",
+             soft, "SoftEqualTraits<double>::rel_prec", re.S)
+    out["relPrec"] = sci(m.group(1), "rel_prec")
+    m = must(r"struct SoftEqualTraits<double>\s*\{.*?abs_thresh\(\)\s*\{\s*return\s+([0-9.eE+-]+)\s*;",
+             soft, "SoftEqualTraits<double>::abs_thresh", re.S)
+    out["absThresh"] = sci(m.group(1), "abs_thresh")
     must(r"real_type sqrt_tol\(\)\s*\{\s*return detail::SoftEqualTraits<real_type>::sqrt_prec\(\);",
          softeq, "sqrt_tol")
     must(r"size_type no_scaling\(\)\s*\{\s*return size_type\(-1\);\s*\}", xsg,
@@ -74,7 +80,7 @@ def render(c):
              "/- Constants of the C14 model, from UrbanMscData.hh, Units.hh (CGS), Interaction.hh,",
              "   SoftEqualTraits.hh, XsGridData.hh.  (m, e) means the decimal literal m·10^(−e). -/",
              "namespace CelerVerif.Generated.CalcConsts", ""]
-    for k in ("minStep", "dtrl", "smallStepAlpha", "sqrtTol"):
+    for k in ("minStep", "dtrl", "smallStepAlpha", "sqrtTol", "relPrec", "absThresh"):
         lines.append(f"def {k}M : Nat := {c[k][0]}")
         lines.append(f"def {k}E : Nat := {c[k][1]}")
     lines.append(f"def noScaling : Nat := {c['noScaling']}")
